@@ -474,6 +474,7 @@ impl<'a> World<'a> {
         let mine = self.fds[spec.fd].mine().clone();
         let fdh = OpFd::new(&mine, &probe);
         let tok = spec.tok.map(|k| self.tokens[k].clone());
+        OUTER.with(|o| *o.borrow_mut() = spec.outer.map(|k| self.tokens[k].clone()));
         let rt = self.rt;
         self.ops[i].readable_at_submit = readable(mine.as_raw_fd());
         let fut: OpFut = match spec.kind {
@@ -1035,10 +1036,14 @@ impl<'a> World<'a> {
     }
 }
 
+thread_local! { static OUTER: std::cell::RefCell<Option<CancelToken>> = const { std::cell::RefCell::new(None) }; }
+
 fn wrap(f: impl Future<Output = Fin> + 'static, tok: Option<CancelToken>) -> OpFut {
-    match tok {
-        Some(t) => Box::pin(f.with_cancel(t)),
-        None => Box::pin(f),
+    let outer = OUTER.with(|o| o.borrow_mut().take());
+    match (tok, outer) {
+        (Some(t), Some(o)) => Box::pin(f.with_cancel(t).with_cancel(o)),
+        (Some(t), None) => Box::pin(f.with_cancel(t)),
+        (None, _) => Box::pin(f),
     }
 }
 
